@@ -11,9 +11,13 @@ sys.path.insert(0, os.path.dirname(HERE))
 
 
 def main():
-    body = json.load(open(sys.argv[1]))
-    from vf import core
-    mod = importlib.import_module(body['module'])
+    try:
+        body = json.load(open(sys.argv[1]))
+        from vf import core
+        mod = importlib.import_module(body['module'])
+    except BaseException:
+        traceback.print_exc()
+        return 4
     if hasattr(mod, 'replay_concrete'):
         return mod.replay_concrete(body)
     fn = getattr(mod, body['func'])
